@@ -20,7 +20,7 @@ import (
 	"sort"
 	"strconv"
 	"strings"
-	"sync/atomic"
+	"sync"
 	"time"
 
 	"github.com/osrg/gobgp/v4/internal/verif/refwire"
@@ -687,22 +687,104 @@ func c11StructKeys(m *bgp.BGPMessage, cfg c11Cfg) (ann, wd []string, eor bool) {
 
 // ---- log capture (one of the ways an oversize route may be "reported") --------------------------
 
-type c11LogCounter struct{ n atomic.Int64 }
+// Handlers run on the goroutine that logs, so records are attributed to the worker whose call
+// produced them by goroutine id.
+type c11LogCounter struct {
+	mu sync.Mutex
+	m  map[uint64]int64
+}
+
+func c11Goid() uint64 {
+	var buf [64]byte
+	n := runtime.Stack(buf[:], false)
+	f := strings.Fields(string(buf[:n]))
+	if len(f) < 2 {
+		return 0
+	}
+	id, _ := strconv.ParseUint(f[1], 10, 64)
+	return id
+}
 
 func (h *c11LogCounter) Enabled(_ context.Context, l slog.Level) bool { return l >= slog.LevelWarn }
-func (h *c11LogCounter) Handle(context.Context, slog.Record) error    { h.n.Add(1); return nil }
-func (h *c11LogCounter) WithAttrs([]slog.Attr) slog.Handler            { return h }
-func (h *c11LogCounter) WithGroup(string) slog.Handler                 { return h }
+func (h *c11LogCounter) Handle(context.Context, slog.Record) error {
+	id := c11Goid()
+	h.mu.Lock()
+	h.m[id]++
+	h.mu.Unlock()
+	return nil
+}
+func (h *c11LogCounter) WithAttrs([]slog.Attr) slog.Handler { return h }
+func (h *c11LogCounter) WithGroup(string) slog.Handler      { return h }
+
+// mine returns a reader of the number of records logged by the calling goroutine.
+func (h *c11LogCounter) mine() func() int64 {
+	id := c11Goid()
+	return func() int64 {
+		h.mu.Lock()
+		defer h.mu.Unlock()
+		return h.m[id]
+	}
+}
 
 // ---- the oracle -------------------------------------------------------------------------------
 
-// c11Ctx is a worker's recorder plus the violation keys it has already described.
+// c11Ctx is a worker's recorder. Violations are collected here and handed to the parent report by
+// c11Flush, which keeps for every key the case with the smallest enumeration index: the retained
+// counterexample is the simplest one and does not depend on which worker finishes first.
 type c11Ctx struct {
 	*vr.Report
-	seen map[string]bool
+	idx   int64 // enumeration index of the case being checked
+	first map[string]*c11First
 }
 
-func c11NewCtx(c *vr.Report) *c11Ctx { return &c11Ctx{Report: c, seen: map[string]bool{}} }
+type c11First struct {
+	idx    int64
+	what   string
+	replay any
+	count  int64
+}
+
+func c11NewCtx(c *vr.Report) *c11Ctx { return &c11Ctx{Report: c, first: map[string]*c11First{}} }
+
+func c11Flush(r *vr.Report, ctxs []*c11Ctx) {
+	keys := map[string]bool{}
+	for _, c := range ctxs {
+		if c != nil {
+			for k := range c.first {
+				keys[k] = true
+			}
+		}
+	}
+	ks := make([]string, 0, len(keys))
+	for k := range keys {
+		ks = append(ks, k)
+	}
+	sort.Strings(ks)
+	for _, k := range ks {
+		var best *c11First
+		var n int64
+		for _, c := range ctxs {
+			if c == nil {
+				continue
+			}
+			if f := c.first[k]; f != nil {
+				n += f.count
+				if best == nil || f.idx < best.idx {
+					best = f
+				}
+			}
+		}
+		r.Violation(k, best.what, best.replay)
+		for i := int64(1); i < n; i++ {
+			r.Violation(k, "", nil)
+		}
+	}
+	for _, c := range ctxs {
+		if c != nil {
+			c.first = map[string]*c11First{}
+		}
+	}
+}
 
 type c11Touch struct {
 	msg int
@@ -711,19 +793,23 @@ type c11Touch struct {
 }
 
 // c11Check runs one case: items -> CreateUpdateMsgFromPaths -> Serialize -> receiver -> comparison.
-// logs, when non-nil, returns the number of Warn+ records written to slog.Default() so far (only
-// meaningful when no other case runs concurrently).
+// logs, when non-nil, returns the number of Warn+ records this goroutine has written to slog.Default().
 func c11Check(c *c11Ctx, cfg c11Cfg, items []c11Item, replay func() any, logs func() int64) {
 	c.Eval()
 	lim := cfg.limit()
 	opt := cfg.options()
 	viol := func(key, format string, a ...any) {
-		if c.seen[key] {
-			c.Violation(key, "", nil) // counted; the first case of this worker is the one kept
+		what := func() string {
+			return fmt.Sprintf("[%s, %d items] "+format, append([]any{cfg, len(items)}, a...)...)
+		}
+		if f := c.first[key]; f != nil {
+			f.count++
+			if c.idx < f.idx {
+				f.idx, f.replay, f.what = c.idx, replay(), what()
+			}
 			return
 		}
-		c.seen[key] = true
-		c.Violationf(key, replay(), "[%s, %d items] "+format, append([]any{cfg, len(items)}, a...)...)
+		c.first[key] = &c11First{idx: c.idx, count: 1, replay: replay(), what: what()}
 	}
 
 	// expected effect per receiver key: the last input item
